@@ -14,6 +14,7 @@ import (
 	"github.com/idena-network/idena-go/core/state"
 	"github.com/idena-network/idena-go/crypto"
 	"github.com/idena-network/idena-go/crypto/ecies"
+	"github.com/idena-network/idena-go/crypto/vrf/p256"
 	"github.com/idena-network/idena-go/stats/collector"
 
 	"verif/sim/simnode"
@@ -61,36 +62,147 @@ func someCid(b byte) []byte {
 	return c
 }
 
-// GenTx draws one signed transaction against the state as seen by view.
-// Returns nil when the draw yields nothing sensible.
+type cand struct {
+	kind   string
+	sender *Ident
+	to     *common.Address
+	aux    int
+}
+
+// GenTx draws one signed transaction against the state as seen by view. Generation is state-aware: the
+// (kind, sender, target) tuples that the current state makes applicable are collected first (who holds an invitation,
+// who has invitees, who delegates to whom, who is a pool, which period it is), one KIND is drawn, then one instance;
+// with Mix.Adversarial the transaction is afterwards broken in one drawn way.
 func (s *Scn) GenTx(view *simnode.Node, mix Mix) (*types.Transaction, string) {
 	t := s.T
 	actors := s.AllActors()
 	st := view.App.State
-	id := actors[t.Choose("tx.sender", len(actors))]
-	for k := 0; k < 3 && st.GetBalance(id.Addr).Sign() == 0; k++ {
-		id = actors[t.Choose("tx.sender", len(actors))]
-	}
+	vc := view.App.ValidatorsCache
 	period := st.ValidationPeriod()
-	nonce, epoch := s.NextNonce(view, id)
+	epoch := st.Epoch()
+	god := st.GodAddress()
+	byKind := map[string][]cand{}
+	var kinds []string
+	add := func(c cand) {
+		if _, ok := byKind[c.kind]; !ok {
+			kinds = append(kinds, c.kind)
+		}
+		byKind[c.kind] = append(byKind[c.kind], c)
+	}
+	minBal := big.NewInt(1e15)
+	for _, a := range actors {
+		bal := st.GetBalance(a.Addr)
+		id := st.GetIdentity(a.Addr)
+		rich := bal.Cmp(minBal) > 0
+		if !rich && id.State != state.Invite {
+			continue
+		}
+		if rich {
+			add(cand{kind: "send", sender: a})
+			add(cand{kind: "burn", sender: a})
+			add(cand{kind: "replenish", sender: a})
+			add(cand{kind: "ipfs", sender: a})
+			add(cand{kind: "profile", sender: a})
+		}
+		if !mix.Identity && !mix.Ceremony {
+			continue
+		}
+		if period == state.NonePeriod && mix.Identity {
+			if (vc.IsValidated(a.Addr) || vc.IsPool(a.Addr)) && id.Delegatee() == nil && rich {
+				add(cand{kind: "online", sender: a})
+			}
+			if rich && (a.Addr == god && st.GodAddressInvites() > 0 || st.GetInvites(a.Addr) > 0) {
+				add(cand{kind: "invite", sender: a})
+			}
+			if id.State == state.Invite {
+				add(cand{kind: "activate", sender: a})
+			}
+			if rich && (id.State == state.Verified || id.State == state.Human || id.State == state.Suspended || id.State == state.Zombie || a.Addr == god && id.State != state.Killed && id.State != state.Candidate && id.State != state.Newbie) {
+				add(cand{kind: "kill", sender: a})
+			}
+			if rich {
+				for k, inv := range st.GetInvitees(a.Addr) {
+					is := st.GetIdentityState(inv.Address)
+					if is == state.Invite || is == state.Candidate {
+						addr := inv.Address
+						add(cand{kind: "killinvitee", sender: a, to: &addr, aux: k})
+					}
+				}
+				if !vc.IsPool(a.Addr) && id.Delegatee() == nil && st.DelegationSwitch(a.Addr) == nil && id.State != state.Undefined && id.State != state.Killed {
+					add(cand{kind: "delegate", sender: a})
+				}
+				if id.Delegatee() != nil && id.DelegationEpoch != epoch && st.DelegationSwitch(a.Addr) == nil {
+					add(cand{kind: "undelegate", sender: a})
+				}
+				if id.State >= state.Candidate && id.State != state.Killed && int(id.GetMaximumAvailableFlips()) > len(id.Flips) {
+					add(cand{kind: "flip", sender: a})
+				}
+				if len(id.Flips) > 0 {
+					add(cand{kind: "delflip", sender: a})
+				}
+				if a.Addr == god {
+					add(cand{kind: "god", sender: a})
+				}
+			}
+		}
+		if period != state.NonePeriod && mix.Ceremony && rich && state.IsCeremonyCandidate(id) {
+			for _, k := range []struct {
+				kind string
+				tt   types.TxType
+			}{{"anshash", types.SubmitAnswersHashTx}, {"shortans", types.SubmitShortAnswersTx}, {"longans", types.SubmitLongAnswersTx}, {"evidence", types.EvidenceTx}} {
+				if !id.HasValidationTx(k.tt) {
+					add(cand{kind: k.kind, sender: a})
+				}
+			}
+		}
+	}
+	// who delegates to whom (kill-delegator candidates)
+	if period == state.NonePeriod && mix.Identity {
+		for _, d := range actors {
+			if del := st.Delegatee(d.Addr); del != nil {
+				if p := s.byAddr[*del]; p != nil && st.GetBalance(p.Addr).Cmp(minBal) > 0 {
+					addr := d.Addr
+					add(cand{kind: "killdelegator", sender: p, to: &addr})
+				}
+			}
+		}
+	}
+	if len(kinds) == 0 {
+		return nil, ""
+	}
+	sort.Strings(kinds)
+	if mix.NoGodChange {
+		var ks []string
+		for _, k := range kinds {
+			if k != "god" {
+				ks = append(ks, k)
+			}
+		}
+		kinds = ks
+	}
+	// plain payments should not crowd the identity transactions out
+	var weighted []string
+	for _, k := range kinds {
+		w := 2
+		switch k {
+		case "send":
+			w = 3
+		case "burn", "ipfs", "profile", "god":
+			w = 1
+		}
+		for i := 0; i < w; i++ {
+			weighted = append(weighted, k)
+		}
+	}
+	what := weighted[t.Choose("tx.kind", len(weighted))]
+	cs := byKind[what]
+	c := cs[t.Choose("tx.instance", len(cs))]
+	id := c.sender
 	bal := st.GetBalance(id.Addr)
-	is := st.GetIdentityState(id.Addr)
-	tx := &types.Transaction{AccountNonce: nonce, Epoch: epoch}
+	nonce, ep := s.NextNonce(view, id)
+	tx := &types.Transaction{AccountNonce: nonce, Epoch: ep}
 	other := actors[t.Choose("tx.other", len(actors))]
-	what := ""
-	kinds := []string{"send", "send", "send", "burn", "profile", "ipfs", "replenish"}
-	if mix.Identity && period == state.NonePeriod {
-		kinds = append(kinds, "online", "online", "invite", "activate", "kill", "killinvitee", "delegate", "delegate", "undelegate", "killdelegator", "flip", "delflip", "god", "replenish")
-	}
-	if mix.Ceremony && period != state.NonePeriod {
-		kinds = append(kinds, "anshash", "shortans", "longans", "evidence", "anshash", "shortans")
-	}
-	what = kinds[t.Choose("tx.kind", len(kinds))]
-	if what == "god" && mix.NoGodChange {
-		what = "send"
-	}
 	frac := func() *big.Int {
-		// a fraction of the balance: 0, tiny, 1/10, 1/2, all
 		switch t.Choose("tx.amount", 6) {
 		case 0:
 			return new(big.Int).Div(bal, big.NewInt(10))
@@ -124,34 +236,38 @@ func (s *Scn) GenTx(view *simnode.Node, mix Mix) (*types.Transaction, string) {
 	case "replenish":
 		tx.Type = types.ReplenishStakeTx
 		tx.To = &other.Addr
-		if t.Choose("tx.replself", 2) == 0 {
-			tx.To = &id.Addr
+		var okTo []*Ident
+		for _, x := range actors {
+			if xs := st.GetIdentityState(x.Addr); xs != state.Undefined && xs != state.Killed {
+				okTo = append(okTo, x)
+			}
+		}
+		if len(okTo) > 0 && t.Choose("tx.replvalid", 5) != 0 {
+			tx.To = &okTo[t.Choose("tx.replto", len(okTo))].Addr
 		}
 		tx.Amount = frac()
 	case "online":
 		tx.Type = types.OnlineStatusTx
-		on := !view.App.ValidatorsCache.IsOnlineIdentity(id.Addr)
-		if t.Choose("tx.onlineflip", 6) == 0 {
+		on := !vc.IsOnlineIdentity(id.Addr)
+		if st.HasStatusSwitchAddresses(id.Addr) {
+			on = !on
+		}
+		if t.Choose("tx.onlineflip", 8) == 0 {
 			on = !on
 		}
 		tx.Payload = attachments.CreateOnlineStatusAttachment(on)
 	case "invite":
 		tx.Type = types.InviteTx
-		// invite a fresh key
-		k := t.Choose("tx.invitee", 12)
-		inv := s.fresh("invitee", k)
+		inv := s.fresh("invitee", t.Choose("tx.invitee", 12))
+		if t.Choose("tx.inviteknown", 6) == 0 {
+			inv = other // an existing address (valid only if it is Undefined)
+		}
 		tx.To = &inv.Addr
 		tx.Amount = frac()
 	case "activate":
-		// sender must hold an invite: pick among fresh invitee keys
-		k := t.Choose("tx.invitee", 12)
-		inv := s.fresh("invitee", k)
-		id = inv
-		nonce, epoch = s.NextNonce(view, id)
-		tx.AccountNonce, tx.Epoch = nonce, epoch
-		dst := s.fresh("activated", k)
-		if t.Choose("tx.actself", 2) == 0 {
-			dst = inv
+		dst := id
+		if t.Choose("tx.actself", 2) == 1 {
+			dst = s.fresh("activated", t.Choose("tx.activated", 12))
 		}
 		tx.Type = types.ActivationTx
 		tx.To = &dst.Addr
@@ -160,53 +276,44 @@ func (s *Scn) GenTx(view *simnode.Node, mix Mix) (*types.Transaction, string) {
 		tx.Type = types.KillTx
 	case "killinvitee":
 		tx.Type = types.KillInviteeTx
-		invs := st.GetInvitees(id.Addr)
-		if len(invs) > 0 {
-			a := invs[t.Choose("tx.whichinvitee", len(invs))].Address
-			tx.To = &a
-		} else {
-			tx.To = &other.Addr
-		}
+		tx.To = c.to
 	case "delegate":
 		tx.Type = types.DelegateTx
-		tx.To = &other.Addr
+		// targets: addresses without delegatee themselves; invitees, candidates and existing pools preferred
+		var pref, any []*Ident
+		for _, x := range actors {
+			if x.Addr == id.Addr || st.Delegatee(x.Addr) != nil {
+				continue
+			}
+			any = append(any, x)
+			xs := st.GetIdentityState(x.Addr)
+			if vc.IsPool(x.Addr) || xs == state.Invite || xs == state.Candidate {
+				pref = append(pref, x)
+			}
+		}
+		switch {
+		case len(pref) > 0 && t.Choose("tx.delegpref", 2) == 0:
+			tx.To = &pref[t.Choose("tx.delegto", len(pref))].Addr
+		case len(any) > 0:
+			tx.To = &any[t.Choose("tx.delegto", len(any))].Addr
+		default:
+			tx.To = &other.Addr
+		}
 	case "undelegate":
 		tx.Type = types.UndelegateTx
 	case "killdelegator":
 		tx.Type = types.KillDelegatorTx
-		tx.To = &other.Addr
-		// prefer a real delegator of the sender
-		var dels []common.Address
-		for _, a := range actors {
-			if d := st.Delegatee(a.Addr); d != nil && *d == id.Addr {
-				dels = append(dels, a.Addr)
-			}
-		}
-		if len(dels) > 0 {
-			tx.To = &dels[t.Choose("tx.whichdelegator", len(dels))]
-		}
+		tx.To = c.to
 	case "flip":
 		tx.Type = types.SubmitFlipTx
 		tx.Payload = attachments.CreateFlipSubmitAttachment(someCid(byte(20+t.Choose("tx.flipcid", 6))), uint8(t.Choose("tx.flippair", 4)))
 	case "delflip":
 		tx.Type = types.DeleteFlipTx
 		fl := st.GetIdentity(id.Addr).Flips
-		c := someCid(byte(20 + t.Choose("tx.flipcid", 6)))
-		if len(fl) > 0 {
-			c = fl[t.Choose("tx.whichflip", len(fl))].Cid
-		}
-		tx.Payload = attachments.CreateDeleteFlipAttachment(c)
+		tx.Payload = attachments.CreateDeleteFlipAttachment(fl[t.Choose("tx.whichflip", len(fl))].Cid)
 	case "god":
 		tx.Type = types.ChangeGodAddressTx
 		tx.To = &other.Addr
-		if t.Choose("tx.godsender", 3) != 0 {
-			g := s.byAddr[st.GodAddress()]
-			if g != nil {
-				id = g
-				nonce, epoch = s.NextNonce(view, id)
-				tx.AccountNonce, tx.Epoch = nonce, epoch
-			}
-		}
 	case "anshash":
 		tx.Type = types.SubmitAnswersHashTx
 		h := crypto.Keccak256Hash([]byte{byte(id.Idx)})
@@ -216,21 +323,25 @@ func (s *Scn) GenTx(view *simnode.Node, mix Mix) (*types.Transaction, string) {
 		tx.Payload = attachments.CreateShortAnswerAttachment([]byte{1, 2, 3}, uint64(id.Idx), 0)
 	case "longans":
 		tx.Type = types.SubmitLongAnswersTx
-		tx.Payload = attachments.CreateLongAnswerAttachment([]byte{1, 2}, []byte{1}, []byte{2}, ecies.ImportECDSA(id.Key))
+		// a genuine VRF proof over the epoch's words seed (required from the second epoch on)
+		seed := st.FlipWordsSeed()
+		proof := []byte{1}
+		if signer, err := p256.NewVRFSigner(id.Key); err == nil {
+			_, proof = signer.Evaluate(seed[:])
+		}
+		tx.Payload = attachments.CreateLongAnswerAttachment([]byte{1, 2}, proof, []byte{2}, ecies.ImportECDSA(id.Key))
 	case "evidence":
 		tx.Type = types.EvidenceTx
 		tx.Payload = []byte{0xff, 0x0f}
 	}
-	_ = is
-	// fee: usually twice the current fee
-	f := fee.CalculateFee(view.App.ValidatorsCache.NetworkSize(), FeeRate(view), tx)
+	f := fee.CalculateFee(vc.NetworkSize(), FeeRate(view), tx)
 	tx.MaxFee = new(big.Int).Mul(f, big.NewInt(2))
-	if t.Choose("tx.tips", 8) == 0 {
+	if t.Choose("tx.tips", 6) == 0 {
 		tx.Tips = new(big.Int).Div(f, big.NewInt(3))
 	}
 	bad := ""
 	if mix.Adversarial > 0 && t.Choose("tx.adversarial", mix.Adversarial) == mix.Adversarial-1 {
-		switch t.Choose("tx.badkind", 9) {
+		switch t.Choose("tx.badkind", 12) {
 		case 0:
 			if tx.AccountNonce > 1 {
 				tx.AccountNonce--
@@ -262,6 +373,19 @@ func (s *Scn) GenTx(view *simnode.Node, mix Mix) (*types.Transaction, string) {
 		case 8:
 			tx.To = nil
 			bad = "nil-to"
+		case 9:
+			// a target the relationship checks have to refuse: somebody else's invitee / delegator / a stranger
+			tx.To = &other.Addr
+			bad = "foreign-target"
+		case 10:
+			// signed by somebody who has no right to it
+			id = other
+			n2, e2 := s.NextNonce(view, id)
+			tx.AccountNonce, tx.Epoch = n2, e2
+			bad = "foreign-signer"
+		case 11:
+			tx.To = &god
+			bad = "god-target"
 		}
 	}
 	return s.sign(tx, id), what + "/" + bad
